@@ -164,6 +164,8 @@ EQ = os.path.join(HERE, "equiv")
 
 # behaviour-preserving refactors: every listed check must stay SILENT (exit 0) on them — a check that fires here is a false alarm
 EQUIV = [
+    ("eq-memory-snapshot-loops", ["C09", "C19", "C06", "C10"], [os.path.join(EQ, "memory_snapshot_loops.diff")], []),
+    ("eq-benign-logging", ["C14", "C06", "C12"], [os.path.join(EQ, "benign_logging.diff")], []),
     ("eq-sqlite-restore-reorder", ["C09", "C12", "C19", "C10"], [os.path.join(EQ, "sqlite_restore_reorder.diff")], []),
     ("eq-sqlite-restore-format-sql", ["C09", "C12"], [os.path.join(EQ, "sqlite_restore_format.diff")], []),
     ("eq-memory-restore-reorder", ["C09", "C08", "C10", "C19", "C06"], [os.path.join(EQ, "memory_restore_reorder.diff")], []),
